@@ -3,7 +3,7 @@ import NasdaqModel.Model.Monitor
 /-
 Line protocol for Model/Monitor.lean.
 
-  hb.run  <soupClient|soupServer|fix> <clientI> <serverI> (<ev>*)      ev ::= (adv k) | send | sendhb | (recv hb|msg|frag) | close
+  hb.run  <soupClient|soupServer|fix> <clientI> <serverI> (<ev>*)      ev ::= (adv k) | send | sendhb | sendfailed | (recv hb|msg|frag) | close
       -> ok now=<t> closed=<none | t:mon | t:app> writes=((t hb|app live|dead)*)          (chronological)
   mon.run <interval> <tol> <true|false> (<mev>*)                       mev ::= (adv k) | ping
       -> ok now=<t> running=<bool> trips=(t*)
@@ -29,6 +29,7 @@ def evsOf : List Sexp → Option (List Ev)
   | .atom "send" :: rest => do some (Ev.send :: (← evsOf rest))
   | .atom "sendhb" :: rest => do some (Ev.sendHb :: (← evsOf rest))
   | .atom "close" :: rest => do some (Ev.close :: (← evsOf rest))
+  | .atom "sendfailed" :: rest => do some (Ev.sendFailed :: (← evsOf rest))
   | .list [.atom "recv", .atom "hb"] :: rest => do some (Ev.recv .hb :: (← evsOf rest))
   | .list [.atom "recv", .atom "msg"] :: rest => do some (Ev.recv .msg :: (← evsOf rest))
   | .list [.atom "recv", .atom "frag"] :: rest => do some (Ev.recv .frag :: (← evsOf rest))
@@ -58,7 +59,7 @@ def evsStr (evs : List Ev) : String :=
     | e :: rest =>
       let acc := if pending > 0 then s!"(adv {pending})" :: acc else acc
       let tok := match e with
-        | .send => "send" | .sendHb => "sendhb" | .close => "close"
+        | .send => "send" | .sendHb => "sendhb" | .close => "close" | .sendFailed => "sendfailed"
         | .recv .hb => "(recv hb)" | .recv .msg => "(recv msg)" | .recv .frag => "(recv frag)"
         | .adv => ""
       go 0 (tok :: acc) rest
